@@ -107,13 +107,29 @@ def to_number(v, t, r):
 
 
 def judge(cfg, name, args):
+    """the operation as a binary operator and, where Python has one, as an augmented assignment on a secret left operand"""
+    res, prog = _judge(cfg, name, args, None)
+    if res is None and name in ir.INPLACE and args[0][0] in "IBF":
+        res, prog = _judge(cfg, name, args, "inplace")
+        if res is not None:
+            res = (res[0], "augmented assignment: " + res[1])
+    if res is None and len(args) == 2 and args[0][0] in "IBF" and list(args[0]) == list(args[1]):
+        res, prog = _judge(cfg, name, args, "alias")
+        if res is not None:
+            res = (res[0], "the same object as both operands: " + res[1])
+    return res, prog
+
+
+def _judge(cfg, name, args, variant):
     ts = "".join(a[0] for a in args)
     vals = [a[2][1] if isinstance(a[2], list) else a[2] for a in args]
     r, b = cfg["r"], cfg["b"]
-    prog = opgrid.single(cfg, name, args)
+    prog = opgrid.single(cfg, name, args, inplace=variant == "inplace", alias=variant == "alias")
     m = ir.run_program(prog)
     exp = ref(name, ts, vals, r)
     n = len(args)
+    if variant == "alias":
+        n, args = 1, args[:1]
     if m.raised is not None:
         if len(m.vals) < n:
             return None, prog
